@@ -59,11 +59,55 @@ def gen(repo):
         else:
             k = "USameAsFit"
         per.append((cls, k))
+    # every method of a model / rotator class that maps scores back through a preprocessor: which path it takes
+    allrows = []
+    for rel in ("xeofs/single/base_model_single_set.py", "xeofs/single/eof.py", "xeofs/single/eeof.py", "xeofs/single/pop.py", "xeofs/single/opa.py",
+                "xeofs/single/sparse_pca.py", "xeofs/single/eof_rotator.py", "xeofs/cross/base_model_cross_set.py", "xeofs/cross/cpcca.py",
+                "xeofs/cross/cpcca_rotator.py", "xeofs/multi/cca.py", "xeofs/validation/bootstrapper.py"):
+        tree, _ = parse_file(repo, rel)
+        for c in tree.body:
+            if not isinstance(c, ast.ClassDef):
+                continue
+            for f in c.body:
+                if not isinstance(f, ast.FunctionDef):
+                    continue
+                used = set()
+                for n in ast.walk(f):
+                    if isinstance(n, ast.Call) and isinstance(n.func, ast.Attribute) and n.func.attr in ("inverse_transform_scores", "inverse_transform_scores_unseen") \
+                            and "preprocessor" in ast.unparse(n.func.value):
+                        used.add("Unseen" if n.func.attr.endswith("_unseen") else "FitPath")
+                for u in sorted(used):
+                    allrows.append((c.name, f.name, u))
+    # cross-set classes: a stage of field N (preprocessorN, pcaN, whitenerN) is only ever applied to a value of field N
+    import re as _re
+    n_field_calls = 0
+    for rel in ("xeofs/cross/base_model_cross_set.py", "xeofs/cross/cpcca.py", "xeofs/cross/cpcca_rotator.py"):
+        tree, _ = parse_file(repo, rel)
+        for n in ast.walk(tree):
+            if isinstance(n, ast.Call) and isinstance(n.func, ast.Attribute) and isinstance(n.func.value, ast.Attribute) \
+                    and isinstance(n.func.value.value, ast.Name) and n.func.value.value.id == "self":
+                m = _re.fullmatch(r"(preprocessor|pca|whitener)([12])", n.func.value.attr)
+                if not m or len(n.args) != 1 or not isinstance(n.args[0], ast.Name):
+                    continue
+                arg = n.args[0].id
+                fld = "1" if (arg == "X" or arg.endswith("1")) else ("2" if (arg == "Y" or arg.endswith("2")) else None)
+                if fld is None:
+                    continue
+                n_field_calls += 1
+                if fld != m.group(2):
+                    raise TransError("%s: %s is applied to %s (line %d)" % (rel, ast.unparse(n.func), arg, n.lineno))
+    if n_field_calls < 20:
+        raise TransError("cross-set field wiring: only %d stage calls recognised" % n_field_calls)
     out = ["(* generated by tools/py2coq/t7_unseen.py *)", "From Coq Require Import String List Bool.", "Import ListNotations.",
            "Open Scope string_scope.", "", "Inductive score_path := Unseen | FitPath.",
            "Inductive unseen_kind := UIdentity | UTransformReference | UReindexToFit | USameAsFit.", "",
            "Definition transform_sites : list (string * score_path) := [",
            ";\n".join('  ("%s", %s)' % r for r in rows), "].", "",
+           "(* class, method, path: every place where scores are mapped back through a preprocessor *)",
+           "Definition score_paths : list (string * string * score_path) := [",
+           ";\n".join('  ("%s", "%s", %s)' % r for r in allrows), "].", "",
+           "(* number of calls self.<stage>N.<method>(value of field N) checked in the cross-set classes (a mismatch fails the translation) *)",
+           "Definition cross_field_calls_checked : nat := %d." % n_field_calls, "",
            "Definition unseen_behaviour : list (string * unseen_kind) := [",
            ";\n".join('  ("%s", %s)' % r for r in per), "]."]
     return "\n".join(out) + "\n"
